@@ -153,6 +153,16 @@ def judge(ctx, c, answers):
                 ctx.violation('regexp_to_nfa-language', {'case': sub, 'word': bad, 'impl': cn})
         if enc.regexp_to_spec(r) != c['r']:
             ctx.violation('argument-mutated', {'case': sub})
+        # reading a missing transition of the result (N.delta[q, a], as the library's own checkers do) yields the empty set
+        import copy
+        N2 = copy.deepcopy(N)
+        keys = set(N2.delta.keys())
+        try:
+            wrong = [(q, a) for q in sorted(N2.Q) for a in sorted(N2.Sigma) + [N2.epsilon] if (q, a) not in keys and len(N2.delta[q, a]) > 0]
+        except KeyError:
+            wrong = []
+        if wrong:
+            ctx.violation('regexp_to_nfa-missing-transition-not-empty', {'case': sub, 'key': list(wrong[0])})
         if 'ok' not in la or enc.canon_nfa_spec(la['ok']) != cn:
             ctx.violation('correspondence:regexp_to_nfa', {'case': sub, 'impl': cn, 'model': la}, no_input=bad is None)
         ctx.record('r2n/' + core.digest(c['r']), cn)
